@@ -50,7 +50,9 @@ def run(tier, seed):
             open(cfgp, "w").write(txt)
             r = V.tlc(mcmod, cfgp, name=f"C20{name}{prog}", workers=4, timeout=900)
             mcs.append({"config": f"{m['spec']} {prog} ({nth} threads), all interleavings", **r.summary()})
-            if not r.ok:
+            if r.timeout:
+                rep.notes.append(f"{m['spec']} {prog}: TLC timed out, {r.distinct} distinct states explored without violation")
+            elif not r.ok:
                 rep.violation(f"TLC: {r.violation} violated in {m['spec']} {prog} (repaired design)", {"tlc": V.tlc_trace_text(r)[-5000:]}, tag="mc")
             states += r.distinct
             trans += r.generated
